@@ -9,7 +9,7 @@
 (*                                                                         *)
 (* Every clause yields [c |-> id, ok |-> holds, nv |-> antecedent held]    *)
 (***************************************************************************)
-EXTENDS Prov
+EXTENDS Prov, FS, IO
 
 Cl(id, nv, ok) == [c |-> id, ok |-> (~nv) \/ ok, nv |-> nv]
 
@@ -461,6 +461,41 @@ C04Clauses(step) ==
   ELSE {}
 
 -----------------------------------------------------------------------------
+(* C17 — writing to a file path is exact and all-or-nothing                    *)
+(* step.events = Seq([ev, ..., snap: [named, others, ntmp]]): one per file-system *)
+(* step of the call, each with a snapshot of the destination; step.final = last   *)
+(* snapshot; step.fired = the injected failure was reached                        *)
+Snaps(step) == {step.events[i].snap : i \in 1..Len(step.events)} \cup {step.final}
+Before(step) == IF step.op.existing THEN "old" ELSE "absent"
+C17_atomic(step) ==
+  Cl("C17_atomic", TRUE, \A sn \in Snaps(step) : sn.named \in {Before(step), "new"})
+C17_exact(step) ==
+  Cl("C17_exact", step.exc = "none",
+     step.final.named = "new" /\ step.final.others = <<>> /\ step.final.ntmp = 0)
+C17_keep(step) ==
+  Cl("C17_keep", step.exc # "none", step.final.named \in {Before(step), "new"} /\ step.final.others = <<>>)
+C17_propagate(step) == Cl("C17_propagate", step.fired, step.exc # "none")
+C17Clauses(step) ==
+  IF step.op.op = "Save" THEN {C17_atomic(step), C17_exact(step), C17_keep(step), C17_propagate(step)} ELSE {}
+
+-----------------------------------------------------------------------------
+(* C16 — all source/destination kinds agree, and prov.read detects the format     *)
+(* step.res = [src: digest of the source document, text: [kind -> same text as   *)
+(* the returned string], doc: [source kind -> digest], read: [kind_how -> digest]] *)
+C16_same_text(step) ==
+  Cl("C16_same_text", TRUE, \A k \in {"text", "binary", "path"} : step.res.text[k])
+C16_same_doc(step) ==
+  Cl("C16_same_doc", step.op.fmt \in Readable,
+     \A k \in SrcKinds : step.res.doc[k] = step.res.src)
+C16_read(step) ==
+  Cl("C16_read", step.op.fmt \in Readable,
+     \A k \in {"text", "binary", "path"} : \A how \in {"explicit", "detect"} :
+        step.res.read[k \o "_" \o how] = step.res.src)
+C16Clauses(step) ==
+  IF step.op.op = "IO" /\ step.exc = "none"
+  THEN {C16_same_text(step), C16_same_doc(step), C16_read(step)} ELSE {}
+
+-----------------------------------------------------------------------------
 (* Conformance (drift) clauses: the model's post-state against the logged   *)
 (* one.  A failure here never becomes a VIOLATION (DESIGN 2.5).             *)
 M_Names(msPost, mres, step) ==
@@ -483,7 +518,19 @@ M_Con(msPost, step) ==
         /\ ProjCon(msPost.con[h]).kind = step.post.con[h].kind
         /\ ProjCon(msPost.con[h]).id = step.post.con[h].id
         /\ msPost.con[h].bundles = step.post.con[h].bundles)
-M_Exc(r, step) == Cl("M_Exc", TRUE, r.exc = step.exc)
+M_Exc(r, step) == Cl("M_Exc", step.op.op # "Save", r.exc = step.exc)
+(* the recorded file-system events are a run of the protocol of FS.tla (repaired variant) *)
+(* the outcome class of every read is what the IO machine (repaired loop) predicts *)
+OutcomeClass(d, src) == IF d = src THEN "doc" ELSE IF d = "empty" THEN "empty"
+                        ELSE IF SubSeq(d, 1, 5) = "error" THEN "error" ELSE "other"
+M_IO(step) ==
+  Cl("M_IO", step.op.op = "IO" /\ step.exc = "none" /\ step.op.fmt \in Readable,
+     \A k \in {"text", "binary", "path"} :
+        /\ OutcomeClass(step.res.read[k \o "_detect"], step.res.src) = ReadDetect(TRUE, k, step.op.fmt)
+        /\ OutcomeClass(step.res.read[k \o "_explicit"], step.res.src) = ReadExplicit(k, step.op.fmt))
+M_FS(step) ==
+  Cl("M_FS", step.op.op = "Save",
+     FsRun(Repaired, FsInit(step.op.existing), step.events, 1, step.op.name).ok)
 M_Eq(r, step) == Cl("M_Eq", step.op.op = "CompareAll" /\ step.exc = "none", r.res = step.res.eq)
 
 =============================================================================
